@@ -3,7 +3,7 @@
 id=$1; wt=$2; a=$3; b=$4
 for pair in "1 $a" "2 $b"; do set -- $pair; k=$1; n=$2; d=/verif/seeded/$id-$n; mkdir -p $d
   cp $wt/_seed/change$k.diff $d/patch.diff
-  for f in $wt/_seed/demo$k* $wt/_seed/*.c $wt/_seed/*.py $wt/_seed/*.sh $wt/_seed/ssh-standin $wt/_seed/fake* ; do [ -f "$f" ] && [ $(stat -c %s "$f") -lt 300000 ] && cp "$f" $d/; done
+  for f in $wt/_seed/demo$k* $(ls $wt/_seed/*.c $wt/_seed/*.py $wt/_seed/*.sh $wt/_seed/ssh-standin $wt/_seed/fake* 2>/dev/null | grep -v "/demo[0-9]") ; do [ -f "$f" ] && [ $(stat -c %s "$f") -lt 300000 ] && cp "$f" $d/; done
   cp $wt/_seed/NOTES.md $d/NOTES.md 2>/dev/null
   (cd /repo && git apply --check $d/patch.diff) && echo "$id-$n applies" || echo "$id-$n DOES NOT APPLY"
 done
